@@ -8,6 +8,8 @@ residuals of `Spec/Euler1D.lean` ARE the three similarity-ODE residuals of `Spec
 times explicit scale factors (`euler_of_similarity`); the factors are non-zero on the admissible
 domain, so the fields solve the PDEs at (r, t) iff (f, g, h) solve the ODEs at λ.
 -/
+import EPV.Lemmas.HydroRobust
+import EPV.Lemmas.Bridge.SemiTac
 import EPV.Gen.SedovShockD
 import EPV.Lemmas.SedovFields
 import EPV.Spec.SedovODE
@@ -49,12 +51,20 @@ theorem field_dr {φ : ℝ → ℝ} {φ' r : ℝ} (c Rt : ℝ) (hφ : HasDerivAt
 theorem r2_hasDerivAt (q : SedovShock.P) {t : ℝ} (ht : 0 < t) :
     HasDerivAt (SedovShock.r2 q) (SedovShock.us q t) t := by
   have hval : SedovShock.us q t = SedovShock.L1.r2_dt q t := by
-    simp only [epv_tree, epv_cond, not_le.mpr ht, if_false, epv_leaf, epv_deriv]
-    ring
+    -- t > 0 selects the computing leaf (whatever the guard looks like); then both sides are the same
+    -- rational expression in the atoms (E/(αρ₀))^(1/x), t^(2/x), t — compared up to normalisation
+    have ht0 := ht.ne'
+    simp only [epv_tree]
+    epv_semi_prune
+    all_goals (simp only [epv_leaf, epv_deriv] <;> epv_semi_eq)
   rw [hval]
-  refine (SedovShock.L1.r2_hasDerivAt_t q t ht).congr_of_eventuallyEq ?_
+  -- the certificate's side conditions (number and form follow the Python) are discharged from `ht`
+  epv_hydro_have_cert hcert : SedovShock.L1.r2_hasDerivAt_t q t
+  refine hcert.congr_of_eventuallyEq ?_
   filter_upwards [Ioi_mem_nhds ht] with s hs
-  simp only [epv_tree, epv_cond, not_le.mpr (Set.mem_Ioi.mp hs), if_false]
+  have hs0 : 0 < s := Set.mem_Ioi.mp hs
+  simp only [epv_tree]
+  epv_semi_prune
 
 /-- d us/dt = -((k-ω)/2) us²/r2  (R̈ = (δ-1) Ṙ/t with δ = 2/(k+2-ω)) -/
 theorem us_hasDerivAt {q : SedovShock.P} {k : ℕ} (A : Admissible q k) {t : ℝ} (ht : 0 < t) :
